@@ -36,8 +36,12 @@ def run(ctx):
             so, sraw = p.class_attr_def(p.get_class(sib), "_match")
             r.ob("C05.same-match", kc.name, raw is sraw,
                  "the part resolves _match to %s, its generic sibling to %s" % (getattr(raw, "qualname", raw), getattr(sraw, "qualname", sraw)), kc.ci.where())
-        else:
+        elif kc.structure_owner is kc.ci:
             r.note("%s overrides structure() with a literal: owned by C04" % kc.name)
+        else:
+            r.ob("C05.part.erasure", kc.name, False,
+                 "%s declares the signature %r but its structure() resolves (MRO: %s) to %s, which ignores the signature: the type accepts every %s of its enzyme"
+                 % (kc.ci.name, kc.signature, " > ".join(getattr(c, "name", str(c)) for c in p.mro(kc.ci)[:4]), kc.structure_func.qualname if kc.structure_func else "?", kc.role), kc.ci.where())
     r.floor("C05.part.erasure", 55)
     if ctx.thorough:
         for e in enzymes_for_tier(ctx):
